@@ -283,6 +283,9 @@ def run(ctx):
                 if mode == "explicit":
                     one_run(ctx, sub, tpl, d == "bwd", "all", RC.flags_for(mode, True), {"template": tpl, "substrate": sub, "dir": d, "alt": True}, "synthetic templates x small substrates")
     flush(ctx)
+    if not ctx.quick and ctx.shard == 0:
+        from vmon import suite
+        suite.run_under(ctx, "c03")  # the repository's own tests with this monitor installed
 
 
 def replay(ctx, v):
